@@ -98,6 +98,10 @@ fn names_owned(defs: &[Dict]) -> String {
 fn record_of(tags: &[String]) -> Dict {
     let mut d = Dict::new();
     for t in tags {
+        if t == "reenter" || t == "moved" || t.starts_with("rpanic=") {
+            // instructions to the simulated resolver, not tags of the record
+            continue;
+        }
         if let Some((k, r)) = t.split_once("=@") {
             d.insert(k.to_string(), Value::make_ref(r));
         } else if let Some((k, r)) = t.split_once("=$") {
@@ -112,10 +116,15 @@ fn record_of(tags: &[String]) -> Dict {
 }
 
 /// The record store behind relationship queries: a fixed little database derived from the op.
-fn store(with_ids: bool) -> BTreeMap<&'static str, Vec<&'static str>> {
+fn store(with_ids: bool, moved: bool) -> BTreeMap<&'static str, Vec<&'static str>> {
     let mut m = BTreeMap::new();
     m.insert("r0", vec!["id=@r0", "d0"]);
-    m.insert("r1", vec!["id=@r1", "d1", "xRef=@r0"]);
+    if moved {
+        // the same database a little later: r1 has been moved under r3 and carries other tags
+        m.insert("r1", vec!["id=@r1", "d2", "xRef=@r3"]);
+    } else {
+        m.insert("r1", vec!["id=@r1", "d1", "xRef=@r0"]);
+    }
     if with_ids {
         m.insert("r2", vec!["id=@r2", "d2", "xRef=@r1", "yRef=@r3"]);
         m.insert("r3", vec!["id=@r3", "d3", "yRef=@r2", "xRef=@r3"]);
@@ -126,6 +135,9 @@ fn store(with_ids: bool) -> BTreeMap<&'static str, Vec<&'static str>> {
     }
     m
 }
+
+/// Payload of the injected resolver failure.
+struct ResolverFault;
 
 /// Evaluates one query; the answer is canonical text (def names sorted: the order of the
 /// returned vectors comes from HashSet iteration and is not part of the answer).
@@ -167,7 +179,10 @@ pub fn answer(ns: &'static Namespace<'static>, op: &Op) -> String {
         }
         "has_relationship" => {
             let rec = record_of(&op.rec);
-            let db = store(!op.rec.iter().any(|t| t == "noIds"));
+            let db = store(!op.rec.iter().any(|t| t == "noIds"), op.rec.iter().any(|t| t == "moved"));
+            // fault: the resolver fails (panics) at its k-th callback; the caller catches it - whatever
+            // the namespace was doing then must not change what it answers afterwards
+            let fail_at: Option<u32> = op.rec.iter().find_map(|t| t.strip_prefix("rpanic=")).and_then(|k| k.parse().ok());
             // bounded liveness of the walk: the store has four records, a terminating walk follows
             // each ref a few times at most
             let calls = std::cell::Cell::new(0u32);
@@ -181,6 +196,9 @@ pub fn answer(ns: &'static Namespace<'static>, op: &Op) -> String {
                 if calls.get() > 2000 {
                     panic!("VERIF relationship query made more than 2000 resolver callbacks over a store of 4 records: it does not terminate");
                 }
+                if fail_at == Some(calls.get()) {
+                    std::panic::resume_unwind(Box::new(ResolverFault));
+                }
                 if reenter {
                     let mut names: Vec<&Symbol> = ns.defs.keys().collect();
                     names.sort();
@@ -193,7 +211,11 @@ pub fn answer(ns: &'static Namespace<'static>, op: &Op) -> String {
             };
             let term = if op.b.is_empty() { None } else { Some(b.clone()) };
             let target = op.rec.iter().find_map(|t| t.strip_prefix("target=@")).map(Ref::from);
-            ns.has_relationship(&rec, &a, &term, &target, &resolve).to_string()
+            match std::panic::catch_unwind(std::panic::AssertUnwindSafe(|| ns.has_relationship(&rec, &a, &term, &target, &resolve))) {
+                Ok(r) => r.to_string(),
+                Err(p) if p.is::<ResolverFault>() => "resolver failed".to_string(),
+                Err(p) => std::panic::resume_unwind(p),
+            }
         }
         "filter" => {
             let rec = record_of(&op.rec);
@@ -384,6 +406,12 @@ pub fn gen_taxonomy_n(rng: &mut Rng, n: usize) -> (String, Vec<String>) {
 }
 
 pub fn gen_op(rng: &mut Rng, syms: &[String], hot: &[String]) -> Op {
+    let q = *rng.pick(QUERIES);
+    gen_op_of(rng, q, syms, hot)
+}
+
+/// One query of kind `q`.
+pub fn gen_op_of(rng: &mut Rng, q: &str, syms: &[String], hot: &[String]) -> Op {
     // threads hit overlapping symbol sets: mostly the hot ones (the contended case)
     let pick = |rng: &mut Rng| -> String {
         if rng.chance(3, 4) {
@@ -392,7 +420,6 @@ pub fn gen_op(rng: &mut Rng, syms: &[String], hot: &[String]) -> Op {
             syms[rng.usize(syms.len())].clone()
         }
     };
-    let q = *rng.pick(QUERIES);
     let mut op = Op { q: q.to_string(), a: pick(rng), b: String::new(), rec: Vec::new() };
     match q {
         "fits" => op.b = pick(rng),
@@ -430,6 +457,12 @@ pub fn gen_op(rng: &mut Rng, syms: &[String], hot: &[String]) -> Op {
             }
             if rng.chance(1, 3) {
                 op.rec.push("reenter".into());
+            }
+            if rng.chance(1, 4) {
+                op.rec.push("moved".into());
+            }
+            if rng.chance(1, 5) {
+                op.rec.push(format!("rpanic={}", rng.range(1, 3)));
             }
         }
         "filter_ctx" => {
@@ -949,12 +982,22 @@ fn gen_case(seed: u64, real_defs: Option<&(String, Vec<String>)>) -> Case {
     let n_hot = wl.range(1, 4);
     let hot: Vec<String> = (0..n_hot).map(|_| syms[wl.usize(syms.len())].clone()).collect();
     // histories (one thread, any order / warm-up) and schedules (2-16 threads)
-    let nthreads = *wl.pick(&[1usize, 2, 2, 2, 3, 3, 4, 4, 6, 8, 12, 16]);
+    // one case in ten is a storm: 9-16 threads that all ask the same kind of query at once (whatever
+    // is counted, pooled or rationed per namespace is then used by many callers at the same instant)
+    let storm: Option<&str> = if wl.chance(1, 10) { Some(*wl.pick(QUERIES)) } else { None };
+    let nthreads = if storm.is_some() { wl.range(9, 16) } else { *wl.pick(&[1usize, 2, 2, 2, 3, 3, 4, 4, 6, 8, 12, 16]) };
     let max_ops = if nthreads > 8 { 3 } else { 8 };
     let mut threads: Vec<Vec<Op>> = Vec::new();
     for _ in 0..nthreads {
         let k = wl.range(1, max_ops);
-        threads.push((0..k).map(|_| gen_op(&mut wl, &syms, &hot)).collect());
+        threads.push(
+            (0..k)
+                .map(|_| match storm {
+                    Some(q) => gen_op_of(&mut wl, q, &syms, &hot),
+                    None => gen_op(&mut wl, &syms, &hot),
+                })
+                .collect(),
+        );
     }
     if nthreads == 1 {
         // sequential history: a warm-up prefix followed by a permutation of a query set
